@@ -295,7 +295,10 @@ func (st *State) vxCall(name string, args []Value, fn *ssa.Function) Value {
 		return st.valueEq(args[0], args[1])
 	case "Epoch":
 		st.epoch++
+		st.globalWrites = nil
 		return nil
+	case "NoGlobalWrites":
+		return ts.Bool(len(st.globalWrites) == 0)
 	case "Unwind":
 		return nil
 	}
@@ -1014,6 +1017,11 @@ func (st *State) builderCall(name string, args []Value) Value {
 func (st *State) randCall(fn *ssa.Function, name string, args []Value) (Value, bool) {
 	ts := st.ts
 	switch name {
+	case "NewSource":
+		// an opaque source: every draw of a Rand built on it is an arbitrary value
+		return IfaceV{t: fn.Signature.Results().At(0).Type(), v: Ptr{obj: st.newObj([]Value{ts.BV(64, 0)}, "rand.Source")}}, true
+	case "New":
+		return Ptr{obj: st.newObj([]Value{ts.BV(64, 0)}, "rand.Rand")}, true
 	case "Float64":
 		// an arbitrary draw in [0,1): named so that the native replay can feed it through a scripted source
 		k := 0
@@ -1030,6 +1038,10 @@ func (st *State) randCall(fn *ssa.Function, name string, args []Value) (Value, b
 			zero, one = ts.F64(0), ts.F64(1)
 		}
 		st.assume(ts.And(st.fcmp(token.LEQ, zero, v), st.fcmp(token.LSS, v, one)))
+		if k >= 2 {
+			// bound on the scripted source: at most two zero draws in a row (stated in the harness bounds)
+			st.assume(ts.Not(st.fcmp(token.EQL, v, zero)))
+		}
 		return v, true
 	case "NormFloat64":
 		k := 0
